@@ -71,6 +71,11 @@ func guard(f func() string) (out string) {
 // ---------------- child: run one (program, schedule) under the controlled scheduler -----------
 
 func execute(job Job) Out {
+	engines.Atomically = func(f func()) {
+		verifsched.NoPreempt++
+		defer func() { verifsched.NoPreempt-- }()
+		f()
+	}
 	fs := afero.NewMemMapFs()
 	fs.Stat("/") // run the sync.Once initialisation of the root now: it takes a file lock inside Once.Do
 	sr := engines.NewRunner(fs)
@@ -313,7 +318,7 @@ func discipline(trace string) string {
 				return "acquires mu while holding a lock"
 			}
 			muR++
-		case "acq:fileW":
+		case "acq:fileW", "acq:fileWa":
 			if file > 0 {
 				return "acquires a file lock while holding a file lock"
 			}
@@ -328,7 +333,7 @@ func discipline(trace string) string {
 				return "releases mu (read) which it does not hold"
 			}
 			muR--
-		case "rel:fileW":
+		case "rel:fileW", "rel:fileWa":
 			if file == 0 {
 				return "releases a file lock which it does not hold"
 			}
@@ -412,6 +417,50 @@ func linearizable(job Job, o Out) bool {
 // ---- program generation ----
 
 var names = []string{"/a", "/d", "/d/f"}
+
+// genIOProgram: goroutines with private handles on the same file /a (and sometimes /d/f), doing
+// positional and sequential I/O, sparse writes (seek or WriteAt beyond the end), truncation, and
+// size observations through Stat and handle Stat
+func genIOProgram(r *corr.Rand, tier string) Job {
+	h := corr.HexS
+	var job Job
+	job.Setup = append(job.Setup, "create "+h("/a"))
+	if r.Chance(70) {
+		job.Setup = append(job.Setup, "h.write 0 "+corr.Pick(r, []string{"6162", "616263646566", "61"}))
+	}
+	nt := 2 + r.Intn(2)
+	for t := 0; t < nt; t++ {
+		ops := []string{fmt.Sprintf("openfile %s %d 420", h("/a"), corr.Pick(r, []int{2, 2, 2, 0, 0x402}))}
+		no := 1 + r.Intn(2)
+		if nt == 2 {
+			no = 1 + r.Intn(3)
+		}
+		for k := 0; k < no; k++ {
+			switch q := r.Intn(100); {
+			case q < 14:
+				ops = append(ops, "h.write 0 "+corr.Pick(r, []string{"5859", "58", "58595a5b"}))
+			case q < 28:
+				ops = append(ops, fmt.Sprintf("h.writeat 0 %s %d", corr.Pick(r, []string{"5859", "58"}), corr.Pick(r, []int{0, 1, 4, 8})))
+			case q < 40:
+				ops = append(ops, fmt.Sprintf("h.seek 0 %d %d", corr.Pick(r, []int{0, 1, 4, 9}), corr.Pick(r, []int{0, 0, 1, 2})))
+			case q < 50:
+				ops = append(ops, fmt.Sprintf("h.trunc 0 %d", corr.Pick(r, []int{0, 1, 5, 9})))
+			case q < 66:
+				ops = append(ops, fmt.Sprintf("h.read 0 %d", corr.Pick(r, []int{1, 4, 16})))
+			case q < 78:
+				ops = append(ops, fmt.Sprintf("h.readat 0 %d %d", corr.Pick(r, []int{2, 16}), corr.Pick(r, []int{0, 1, 3})))
+			case q < 86:
+				ops = append(ops, "h.stat 0")
+			case q < 94:
+				ops = append(ops, "stat "+h("/a"))
+			default:
+				ops = append(ops, "h.close 0")
+			}
+		}
+		job.Threads = append(job.Threads, ops)
+	}
+	return job
+}
 
 func genProgram(r *corr.Rand, tier string) Job {
 	h := corr.HexS
@@ -579,6 +628,10 @@ func main() {
 		jobs = append(jobs, corpus()...)
 		rng := corr.NewRand(*seed)
 		for i := 0; i < nPrograms; i++ {
+			if i%3 == 2 {
+				jobs = append(jobs, genIOProgram(rng.Fork(), *tier))
+				continue
+			}
 			jobs = append(jobs, genProgram(rng.Fork(), *tier))
 		}
 	}
@@ -856,6 +909,8 @@ func opShapes(trace string) []string {
 			cur = append(cur, "W")
 		case e == "acq:muR":
 			cur = append(cur, "R")
+		case e == "acq:fileW" && strings.HasPrefix(op, "h."):
+			cur = append(cur, "F")
 		}
 	}
 	flush()
@@ -931,6 +986,14 @@ func sharesName(j Job) bool {
 func corpus() []Job {
 	h := corr.HexS
 	return []Job{
+		// a sparse write (seek beyond the end, then Write) against a reader and a Stat: the zero fill and the
+		// payload must appear together
+		{Setup: []string{"create " + h("/a"), "h.write 0 6162"}, Threads: [][]string{
+			{"openfile " + h("/a") + " 2 420", "h.seek 0 4 0", "h.write 0 5859"},
+			{"openfile " + h("/a") + " 0 420", "h.readat 0 16 0", "stat " + h("/a")}}},
+		{Setup: []string{"create " + h("/a"), "h.write 0 6162"}, Threads: [][]string{
+			{"openfile " + h("/a") + " 2 420", "h.writeat 0 5859 4"},
+			{"stat " + h("/a"), "stat " + h("/a")}}},
 		// S12: Rename ‖ Remove of the same file
 		{Setup: []string{"create " + h("/a")}, Threads: [][]string{{"rename " + h("/a") + " " + h("/b")}, {"remove " + h("/a")}}},
 		// S14: two exclusive creates of one name
